@@ -151,6 +151,16 @@ def run(chk, ctx):
                           (e.short, d.short, tag), res,
                           site='%s:%d / %s' % (e.module.relpath,
                                                e.node.lineno, dsite))
+        if ref.get('kind') == 'bool':
+            for dp in D.paths:
+                rds = list(dp.reads.values())
+                v = dp.value
+                okb = len(rds) == 1 and isinstance(v, Sym) and \
+                    v.op == 'ne' and v.args[0] is rds[0].term and \
+                    v.args[1] == 0
+                chk.ob(rule, cons + ' truth value', okb,
+                       'decoded as %s' % T.show(v)[:80],
+                       detail={'expected': 'octet != 0'}, site=dsite)
         # clause 5: Python type
         want = ref.get('py')
         kinds = set()
